@@ -51,7 +51,7 @@ type scnObj struct {
 	Size   uint64      `json:"size"`
 	Ver    int         `json:"ver,omitempty"`
 	Exp    int64       `json:"exp,omitempty"`  // expiration epoch, 0 = none
-	Fate   string      `json:"fate,omitempty"` // "" | "gc" (garbage mark) | "gcr" (redundant mark, stays available) | "del" (metadata deleted)
+	Fate   string      `json:"fate,omitempty"` // "" | "gc" (garbage mark) | "gcr" (redundant mark, stays available) | "del" (physically deleted) | "gcdel" (marked, then deleted)
 	Shards []int       `json:"shards,omitempty"`
 }
 
@@ -525,7 +525,7 @@ func available(s scenario, o scnObj) bool {
 func corpusEvent(p *pools, s scenario) kit.M {
 	objs := []kit.M{}
 	for _, o := range s.Objs {
-		if o.Fate == "del" {
+		if o.Fate == "del" || o.Fate == "gcdel" {
 			continue
 		}
 		sh := o.Shards
